@@ -79,7 +79,7 @@ def check_primitives(report: Report, repo: Repo) -> None:
             report.add("R1-primitives", cons, None, f"outside fragment: {e}")
             continue
         exp = T("mul", (fs, TM.term_of(X)))
-        ok = TM.term_equal(TM.term_of(res), exp) is True
+        ok = all(TM.term_equal(TM.term_of(leaf), exp) is True for _g, leaf in TM.leaves(res)) if res is not None else False
         report.add("R1-primitives", cons + "::return", ok, "forward must return exactly fwd_scale * X (no other arithmetic, no use of bwd_scale)", fmt(res), fmt(exp))
         saves = [e for e in it.events if e.kind == "callv" and "save_for_backward" in fmt(e["callee"])]
         if len(saves) != 1 or len(saves[0]["args"]) != 1:
